@@ -268,6 +268,16 @@ def check_case(case):
     for p, q in shared_objects(obj, cp):
         res.fail(f'copy/shared-object/{p.split("[")[0].lstrip(".")}', f'{detail}: original and copy share {p} / {q}')
     mutated, other = (cp, obj) if case['side'] == 'copy' else (obj, cp)
+    if case.get('values_both') and hasattr(obj, 'values'):
+        # the caller hands one and the same array to both objects (the setter documents element-by-element replacement)
+        try:
+            shared = np.array(obj.values, dtype=obj.values.dtype) * 0 + 3
+            ok1 = attempt(setattr, obj, 'values', shared)
+            ok2 = attempt(setattr, cp, 'values', shared)
+            if ok1.ok != ok2.ok:
+                res.fail('copy/values-setter-outcome-differs', f'{detail}: original {ok1!r}, copy {ok2!r}')
+        except Exception:  # noqa: BLE001  (object dtype arrays etc.: nothing to share)
+            pass
     post = case.get('post') or []
     res.nontrivial = any(op[0] not in ('setattr', 'setitem', 'setlabel', 'setslice', 'inplace', 'values', 'replace_values') for op in post)
     for i, op in enumerate(post):
@@ -320,6 +330,7 @@ def strategy(mode):
                 case['pre'] = draw(st.lists(post_ops(n), max_size=6))
                 case['route'] = draw(st.integers(0, 2))
                 case['side'] = draw(st.sampled_from(['copy', 'orig']))
+                case['values_both'] = draw(st.sampled_from([False, False, True]))
             return case
         return cases()
     return make_strategy
@@ -344,6 +355,9 @@ def gen_fixed():
                         for side in ('copy', 'orig'):
                             for pre in ([], [['solve', True]], [['solve', False], ['add_variable', ['new', 'W'], {'scalar': 2}, None]]):
                                 yield {'mode': 'copy', 'kind': kind, 'span': desc, 'pre': pre, 'route': route, 'side': side, 'post': [op]}
+                            if op[0] in ('inplace', 'solve', 'setattr'):
+                                yield {'mode': 'copy', 'kind': kind, 'span': desc, 'pre': [], 'route': route, 'side': side,
+                                       'values_both': True, 'post': [op]}
     return gen
 
 
